@@ -1223,7 +1223,7 @@ func (ctx drawContext) drawLine(x1, y1, x2, y2, thickness pr.Fl, style pr.String
 			x := x1 - offset
 			ctx.dst.MoveTo(x, y1)
 
-			for x < x2 {
+			for radius > 0 && x < x2 { // a null thickness would never reach x2
 				ctx.dst.CubicTo(x+radius/2, y1+up*radius,
 					x+3*radius/2, y1+up*radius,
 					x+2*radius, y1)
